@@ -260,17 +260,15 @@ def minsum_check_update(ctx, vcfg):
 
 @obligation("C10.minsum_scale_invariance", function=FMS + ":MinSumLDPCDecoder.compute_cv_minsum", configs=lambda tier: codes.with_variants([c for c in _h_cfgs(tier) if len(tanner_edges(c[1])) <= 14], ["plain", "scaled"]), timeout_ms=60000, crosscheck=2)
 def minsum_scale_invariance(ctx, vcfg):
-    """offset 0: compute_cv_minsum(t * m) == t * compute_cv_minsum(m) for every t > 0 (both inside the +-500 message range)"""
+    """offset 0: compute_cv_minsum(t * m) == t * compute_cv_minsum(m), proved directly on the real function for all real messages m and
+    t in {1/3, 1/2, 2, 7} (a symbolic t would make the terms non-linear).  For EVERY t > 0 the invariance is the corollary of
+    C10.minsum_check_update: the specification alpha * prod sign * min|.| is positively homogeneous (sign(t m) = sign(m), |t m| = t |m|)."""
     cfg, variant = codes.split_variant(vcfg)
     alpha, beta = MS_PARAMS[variant]
     dec = minsum_decoder(cfg, 3, alpha, beta)
     H = SP.int_matrix(codes.build(cfg).check_matrix)
     ne = len(tanner_edges(H))
     vc = ctx.reals("vc", (1, ne))
-    t = ctx.scalar("t", "real", sampler=lambda r: r.choice([0.5, 2.0, 3.0, abs(r.gauss(0, 2)) + 0.1]))
-    ctx.assume(S.lt(0, t))
-    # a concrete grid of scale factors keeps the terms linear; the symbolic t is replaced by representatives of (0,1), 1, (1,inf) together
-    # with the homogeneity of the specification (proved in C10.minsum_check_update): here t ranges over the listed rationals
     for tv in (Fraction(1, 3), Fraction(1, 2), 2, 7):
         scaled = np.empty((1, ne), dtype=object)
         for j, v in enumerate(P(vc)[0]):
@@ -337,3 +335,306 @@ def minsum_noise_free(ctx, vcfg):
     info, soft = out.value
     ctx.ensure("posterior_signs_are_the_codeword", SP.shape_is(soft, (1, n)) and SP.conj(S.ite(S.eq(x[j], 1), S.lt(P(soft)[0][j], 0), S.lt(0, P(soft)[0][j])) for j in range(n)), note=f"alpha={alpha}, beta={beta}, {iters} iteration(s)")
     ctx.ensure("decodes_to_message_with_advertised_shape", SP.shape_is(info, (1, k)) and SP.all_eq(P(info), P(m)), note=f"alpha={alpha}, beta={beta}, {iters} iteration(s)")
+
+
+# ================================================================================================ belief propagation: index structures (ground)
+def _bp_struct_cfgs(tier):
+    out = _h_cfgs(tier)
+    for c in codes.catalogue(tier):
+        if c.family in ("hamming", "spc") and codes.try_build(c)[0] is not None and codes.build(c).generator_matrix.shape[1] <= 16:
+            out.append(c)
+        if c.family == "ldpc" and c not in out and tier == "thorough":
+            out.append(c)
+    return out
+
+
+_BPD = {}
+
+
+def bp_decoder(cfg, iters=5, arctanh=True):
+    key = (cfg, iters, arctanh)
+    if key not in _BPD:
+        from kaira.models.fec.decoders.belief_propagation import BeliefPropagationDecoder
+
+        _BPD[key] = BeliefPropagationDecoder(codes.build(cfg), bp_iters=iters, arctanh=arctanh)
+    return _BPD[key]
+
+
+@obligation("C10.bp_index_structures", function=FBP + ":BeliefPropagationDecoder.prep_edge_ind; " + FBP + ":BeliefPropagationDecoder.calc_code_metrics", configs=_bp_struct_cfgs, kind="ground", engine="ground")
+def bp_index_structures(cfg):
+    enc = codes.build(cfg)
+    try:
+        dec = bp_decoder(cfg)
+    except Exception as e:
+        yield "constructs", False, f"constructor raised {type(e).__name__}: {e}"
+        return
+    yield "constructs", True, ""
+    H = SP.int_matrix(enc.check_matrix)
+    G = SP.int_matrix(enc.generator_matrix)
+    k, n = len(G), len(G[0])
+    r = len(H)
+    E = tanner_edges(H)  # variable-major
+    CM = sorted(E, key=lambda e: (e[1], e[0]))  # check-major
+    yield "edge_count_and_degrees", int(dec.num_edges) == len(E) and dec.var_degree.tolist() == [sum(H[c][v] for c in range(r)) for v in range(n)] and dec.check_degree.tolist() == [sum(row) for row in H], f"{len(E)} edges"
+    yield "lv_ind_is_variable_of_edge", dec.lv_ind.tolist() == [v for v, _ in E], "variable-major edge order"
+    cvo = dec.cv_order.tolist()
+    yield "cv_order_is_variable_major_to_check_major_permutation", sorted(cvo) == list(range(len(E))) and all(CM[cvo[e]] == E[e] for e in range(len(E))), "cv_order[e] = position of edge e in check-major order"
+    bad = []
+    for c in range(r):
+        mine = [i for i, (v2, c2) in enumerate(E) if c2 == c]  # ascending variable = check-major order inside the check
+        ext = dec.ext_ce[c]
+        if len(mine) <= 1:
+            if ext.numel() != 0:
+                bad.append(c)
+            continue
+        rows = [[int(x) for x in row] for row in ext.tolist()]
+        if len(rows) != len(mine) or any(sorted(rows[i]) != [e for e in mine if e != mine[i]] for i in range(len(mine))):
+            bad.append(c)
+    yield "ext_ce_lists_exactly_the_other_edges_of_the_check", not bad, f"checks with a wrong extrinsic table: {bad[:5]}"
+    badv = [v for v in range(n) if [int(x) for x in dec.marg_ec[v].tolist()] != [i for i, (v2, _) in enumerate(E) if v2 == v]]
+    yield "marg_ec_lists_the_edges_of_the_variable", not badv, f"{badv[:5]}"
+    idx = [int(x) for x in dec.idx_mess_t.tolist()]
+    ok = len(idx) == k and all([G[i][idx[t]] for i in range(k)] == [1 if i == t else 0 for i in range(k)] for t in range(k))
+    w1 = [j for j in range(n) if sum(G[i][j] for i in range(k)) == 1]
+    yield "idx_mess_t_carries_message_bit_i_at_entry_i", ok, f"idx_mess_t = {idx}, k = {k}, weight-1 columns of G = {w1}"
+
+
+# ================================================================================================ belief propagation: bounded stand-in
+def random_tree_H(rng, n):
+    """cycle-free Tanner graph: every new check joins one existing variable to one or more new variables"""
+    rows = []
+    nv = rng.randint(2, 3)
+    rows.append(list(range(nv)))
+    while nv < n:
+        new = min(n - nv, rng.randint(1, 3))
+        anchor = rng.randrange(nv)
+        rows.append([anchor] + list(range(nv, nv + new)))
+        nv += new
+    if rng.random() < 0.5:
+        rows.append([rng.randrange(n)])  # a degree-1 check (pins one variable to 0)
+    return tuple(tuple(1 if j in row else 0 for j in range(n)) for row in rows)
+
+
+def _bp_native_cfgs(tier):
+    out = list(_bp_struct_cfgs(tier))
+    rng = random.Random(SEED * 4111 + 5)
+    for i in range(3 if tier == "quick" else 12):
+        n = rng.randint(5, 10)
+        H = random_tree_H(rng, n)
+        if Gd.rank(Gd.rows_to_masks([list(r) for r in H])) == len(H):
+            out.append(Cfg("ldpc", H))
+    if tier == "thorough":
+        for i in range(6):
+            n = rng.randint(12, 24)
+            out.append(Cfg("ldpc", codes.random_sparse_H(rng, rng.randint(3, n // 2), n)))
+    seen, uniq = set(), []
+    for c in out:
+        if c not in seen:
+            seen.add(c)
+            uniq.append(c)
+    return uniq
+
+
+def is_cycle_free(H):
+    r, n = len(H), len(H[0])
+    parent = list(range(r + n))
+
+    def find(a):
+        while parent[a] != a:
+            parent[a] = parent[parent[a]]
+            a = parent[a]
+        return a
+
+    for c in range(r):
+        for v in range(n):
+            if H[c][v]:
+                a, b = find(n + c), find(v)
+                if a == b:
+                    return False
+                parent[a] = b
+    return True
+
+
+def exact_posteriors(H, llr):
+    """bitwise posterior LLRs log P(c_j=0|y)/P(c_j=1|y) over the code ker H, by enumeration"""
+    r, n = len(H), len(H[0])
+    num0 = [0.0] * n
+    num1 = [0.0] * n
+    for w in range(1 << n):
+        c = [(w >> j) & 1 for j in range(n)]
+        if any(sum(H[i][j] * c[j] for j in range(n)) % 2 for i in range(r)):
+            continue
+        p = math.exp(sum((0.5 if not c[j] else -0.5) * llr[j] for j in range(n)))
+        for j in range(n):
+            if c[j]:
+                num1[j] += p
+            else:
+                num0[j] += p
+    return [math.log(num0[j] / num1[j]) if num1[j] > 0 and num0[j] > 0 else (math.inf if num1[j] == 0 else -math.inf) for j in range(n)]
+
+
+@obligation(
+    "C10.bp_native",
+    function=FBP + ":BeliefPropagationDecoder.forward; " + FBP + ":BeliefPropagationDecoder.compute_cv; " + FBP + ":BeliefPropagationDecoder.compute_vc; " + FBP + ":BeliefPropagationDecoder.marginalize; " + FU + ":Taylor_arctanh; " + FU + ":sign_to_bin",
+    configs=_bp_native_cfgs,
+    kind="custom",
+    engine="standin",
+)
+def bp_native(spec, cfg, tier, seed):
+    """BOUNDED stand-in (the check-node update goes through log2 of complex numbers and 2**x: out of symbolic reach).
+    (1) every codeword (k <= 8, else 256 random) at magnitudes 0.5..50 decodes to its message with shape (B, k), exact and Taylor arctanh, 1/5/10 iterations;
+    (2) on cycle-free graphs the soft output equals the exact bitwise posterior LLRs (enumeration over the code) for random inputs inside the
+        message-clipping range (|posterior| < 2 atanh(0.999) = 7.6), tolerance 2e-3 absolute."""
+    from kaira.models.fec.decoders.belief_propagation import BeliefPropagationDecoder
+
+    t0 = time.time()
+    enc = codes.build(cfg)
+    G = SP.int_matrix(enc.generator_matrix)
+    H = SP.int_matrix(enc.check_matrix)
+    k, n = len(G), len(G[0])
+    rng = random.Random(seed * 613 + n * 7 + k)
+    stats = {}
+
+    def record(name, ok, wit):
+        st = stats.setdefault(name, {"n": 0, "fail": None})
+        st["n"] += 1
+        if not ok and st["fail"] is None:
+            st["fail"] = wit
+
+    msgs = [list(m) for m in itertools.product([0, 1], repeat=k)] if k <= 8 else [[rng.randint(0, 1) for _ in range(k)] for _ in range(256)]
+    M = torch.tensor(msgs, dtype=torch.float32)
+    X = enc(M)
+    for arct in (True, False):
+        for iters in (1, 5, 10):
+            try:
+                dec = BeliefPropagationDecoder(enc, bp_iters=iters, arctanh=arct)
+            except Exception as e:
+                record("constructs", False, {"raised": repr(e)[:200]})
+                continue
+            for a in (0.5, 1.0, 7.3, 50.0):
+                name = f"noise_free.{'arctanh' if arct else 'taylor'}"
+                try:
+                    out = dec(a * (1 - 2 * X))
+                    if tuple(out.shape) != tuple(M.shape):
+                        record(name, False, {"magnitude": a, "iterations": iters, "output_shape": list(out.shape), "advertised": list(M.shape)})
+                    else:
+                        badrows = (out != M).any(1).nonzero().reshape(-1).tolist()
+                        record(name, not badrows, None if not badrows else {"magnitude": a, "iterations": iters, "message": msgs[badrows[0]], "decoded": out[badrows[0]].tolist(), "wrong_rows": len(badrows)})
+                except Exception as e:
+                    record(name, False, {"magnitude": a, "iterations": iters, "raised": repr(e)[:200]})
+    if is_cycle_free(H) and n <= 12:
+        iters = 2 * (len(H) + n)
+        for arct in (True, False):
+            try:
+                dec = BeliefPropagationDecoder(enc, bp_iters=iters, arctanh=arct)
+            except Exception:
+                continue
+            for _ in range(20 if tier == "quick" else 100):
+                llr = [rng.uniform(-1.5, 1.5) for _ in range(n)]
+                want = exact_posteriors(H, llr)
+                if any(abs(w) > 6.5 for w in want):
+                    continue
+                try:
+                    _, soft = dec(torch.tensor([llr], dtype=torch.float32), return_soft=True)
+                    got = soft.reshape(-1).tolist()
+                    ok = len(got) == n and all(abs(g - w) <= 2e-3 + 1e-3 * abs(w) for g, w in zip(got, want))
+                    record(f"cycle_free_exact_posteriors.{'arctanh' if arct else 'taylor'}", ok, None if ok else {"llr": llr, "soft_output": got, "exact_posterior": want, "iterations": iters})
+                except Exception as e:
+                    record(f"cycle_free_exact_posteriors.{'arctanh' if arct else 'taylor'}", False, {"llr": llr, "raised": repr(e)[:200]})
+    res = []
+    for name, st in sorted(stats.items()):
+        r = ObResult(prop="C10", ob=f"{spec.id}/{name}", config=str(cfg), function=spec.function, engine="standin", backend="native", kind="bounded")
+        r.verdict = "discharged" if st["fail"] is None else "refuted"
+        r.paths = st["n"]
+        r.queries = st["n"]
+        r.witness = st["fail"]
+        r.replay_confirmed = None if st["fail"] is None else True
+        r.detail = f"bounded: {st['n']} native evaluations on a ({n},{k}) code, {'all' if k <= 8 else 256} codewords x magnitudes (0.5, 1, 7.3, 50) x iterations (1, 5, 10); cycle-free: {is_cycle_free(H)}"
+        r.wall_s = round(time.time() - t0, 2)
+        res.append(r)
+    return res
+
+
+# ================================================================================================ soft Reed-Muller
+_RMD = {}
+
+
+def _rm_soft(cfg):
+    if cfg not in _RMD:
+        from kaira.models.fec.decoders.reed_muller_decoder import ReedMullerDecoder
+
+        enc = codes.build(cfg)
+        _RMD[cfg] = (enc, ReedMullerDecoder(enc, input_type="soft"))
+    return _RMD[cfg]
+
+
+def _rm_cfgs(tier):
+    # RM(2,3) (k = 7) and every RM(r,4) with r >= 1 exceed the solver budget: bounded only (C10.rm_soft_native)
+    grid = [(0, 1), (0, 2), (1, 2), (0, 3), (1, 3)] + ([(0, 4)] if tier == "thorough" else [])
+    return [Cfg("rm", r, m, v) for r, m in grid for v in ("uniform", "per_position")]
+
+
+@obligation("C10.rm_soft_noise_free", function=FRM + ":ReedMullerDecoder.forward; kaira/models/fec/encoders/reed_muller_code.py:ReedMullerCodeEncoder.get_reed_partitions", configs=_rm_cfgs, timeout_ms=120000, crosscheck=2)
+def rm_soft_noise_free(ctx, vcfg):
+    """forall messages m, forall magnitudes a > 0 (common or per position): ReedMullerDecoder(input_type='soft')(a (1 - 2 forward(m))) == m"""
+    cfg, variant = codes.split_variant(vcfg)
+    enc, dec = _rm_soft(cfg)
+    k, n = enc.generator_matrix.shape
+    m = ctx.bits("m", (k,))
+    if variant == "uniform":
+        a = ctx.scalar("a", "real", sampler=lambda r: r.choice([0.5, 1.0, 50.0, abs(r.gauss(0, 3)) + 0.01]))
+        ctx.assume(S.lt(0, a))
+        mags = a
+    else:
+        mags = positive_reals(ctx, "a", n)
+    cw = ctx.call(enc.forward, m)
+    ctx.ensure("encodes", cw.ok)
+    if not cw.ok:
+        return
+    r = ctx.tensor(noise_free(list(P(cw.value)), mags))
+    with OS.piecewise():
+        out = ctx.call(dec.forward, r)
+    ctx.ensure("returns", out.ok, note=repr(out.exc) if not out.ok else "")
+    if out.ok:
+        ctx.ensure("decodes_to_message_with_advertised_shape", SP.shape_is(out.value, (k,)) and SP.all_eq(P(out.value), P(m)))
+        ctx.ensure("input_unmodified", out.unmodified)
+
+
+@obligation("C10.rm_soft_native", function=FRM + ":ReedMullerDecoder.forward", configs=lambda tier: [Cfg("rm", r, m) for m in range(1, (5 if tier == "quick" else 6)) for r in range(0, m)], kind="custom", engine="standin")
+def rm_soft_native(spec, cfg, tier, seed):
+    """BOUNDED stand-in: every codeword (k <= 11, else 512 random) at common magnitudes 0.5..50 and at random per-position magnitudes, batch and
+    multi-block layouts, decodes to its message"""
+    t0 = time.time()
+    enc, dec = _rm_soft(cfg)
+    k, n = enc.generator_matrix.shape
+    rng = random.Random(seed * 17 + n + k)
+    msgs = [list(m) for m in itertools.product([0, 1], repeat=k)] if k <= 11 else [[rng.randint(0, 1) for _ in range(k)] for _ in range(512)]
+    if tier == "quick" and len(msgs) > 256:
+        msgs = rng.sample(msgs, 256)
+    M = torch.tensor(msgs, dtype=torch.float32)
+    X = enc(M)
+    fail, evals = None, 0
+    for a in (0.5, 1.0, 7.3, 50.0, "random"):
+        mag = torch.tensor([[rng.uniform(0.05, 50) for _ in range(n)] for _ in msgs]) if a == "random" else a
+        llr = mag * (1 - 2 * X)
+        for layout in ("batch", "blocks"):
+            inp = llr if layout == "batch" else llr.reshape(1, -1)
+            want = M if layout == "batch" else M.reshape(1, -1)
+            evals += 1
+            try:
+                out = dec(inp)
+                ok = tuple(out.shape) == tuple(want.shape) and bool((out == want).all())
+                wit = None if ok else {"magnitude": a, "layout": layout, "output_shape": list(out.shape), "advertised": list(want.shape)}
+            except Exception as e:
+                ok, wit = False, {"magnitude": a, "layout": layout, "raised": repr(e)[:200]}
+            if not ok and fail is None:
+                fail = wit
+    r = ObResult(prop="C10", ob=f"{spec.id}/noise_free", config=str(cfg), function=spec.function, engine="standin", backend="native", kind="bounded")
+    r.verdict = "discharged" if fail is None else "refuted"
+    r.paths = evals
+    r.queries = len(msgs)
+    r.witness = fail
+    r.replay_confirmed = None if fail is None else True
+    r.detail = f"bounded: {len(msgs)} codewords of the ({n},{k}) code x magnitudes (0.5, 1, 7.3, 50, random per position) x layouts (B,n), (1,B*n)"
+    r.wall_s = round(time.time() - t0, 2)
+    return [r]
